@@ -145,8 +145,8 @@ func (c Closure) CallAll(ctx context.Context, arg Value, b SetBuilder) error {
 	niladic := c.f.Arg() == "-"
 	noArg := arg == nil
 	if niladic != noArg {
-		panic(errors.Errorf(
-			"nullary-vs-unary function arg mismatch (%s vs %s)", c.f.Arg(), arg))
+		return errors.Errorf(
+			"nullary-vs-unary function arg mismatch (%s vs %v)", c.f.Arg(), arg)
 	}
 	if niladic {
 		val, err := c.f.body.Eval(ctx, c.scope)
